@@ -78,7 +78,9 @@ def make(mido, sym, delta=0):
 def msg_to_event(m, charset='latin1'):
     """Canonical SMF event of a mido message (through the *reference*
     codecs, not mido's)."""
-    if getattr(m, 'is_meta', False):
+    # classified by class and type name, not by the library's is_meta flag
+    if m.type == 'unknown_meta' or m.type in rm.TABLE or \
+            'Meta' in type(m).__name__:
         if m.type == 'unknown_meta':
             return ('meta', m.type_byte, tuple(m.data))
         attrs = {k: v for k, v in vars(m).items() if k not in ('type', 'time')}
